@@ -42,6 +42,7 @@ type ceResp struct {
 	judge   bool // the mapping clause of C10 applies (conventional content type, well-formed body class)
 	lang    string
 	class   string // json | proto
+	rpc     string // Do (POST, response with fields) | Ack (POST, response without fields) | Get (GET with a path variable)
 }
 
 var goRawErrRe = regexp.MustCompile(`(?s)^request failed with status (\d+): (.*)$`)
@@ -93,7 +94,12 @@ func clientSideCheck(c *chk.Ctx, enforce string, realResponses []*ceResp) {
 		{Name: "Out", Fields: []*abs.Field{{Name: "id", Num: 1, Kind: "string", Card: "one", Rules: abs.NoRules()}, {Name: "n", Num: 2, Kind: "int64", Card: "one", Rules: abs.NoRules()}}},
 		{Name: "NotFoundError", Fields: []*abs.Field{{Name: "code", Num: 1, Kind: "string", Card: "one", Rules: abs.NoRules()}, {Name: "num", Num: 2, Kind: "int32", Card: "one", Rules: abs.NoRules()}}},
 	}
-	f.Services = []*abs.Service{{Name: "Svc", HasBase: true, BasePath: "/api", Methods: []*abs.Method{{Name: "Do", In: "ce.v1.In", Out: "ce.v1.Out", HasCfg: true, Path: "/do", Verb: "POST"}}}}
+	f.Messages = append(f.Messages, &abs.Message{Name: "Ack"})
+	// the same responses reach RPCs of other shapes: a response message without fields, a GET with a path variable
+	f.Services = []*abs.Service{{Name: "Svc", HasBase: true, BasePath: "/api", Methods: []*abs.Method{
+		{Name: "Do", In: "ce.v1.In", Out: "ce.v1.Out", HasCfg: true, Path: "/do", Verb: "POST"},
+		{Name: "Ack", In: "ce.v1.In", Out: "ce.v1.Ack", HasCfg: true, Path: "/ack", Verb: "POST"},
+		{Name: "Get", In: "ce.v1.In", Out: "ce.v1.Out", HasCfg: true, Path: "/get/{id}", Verb: "GET"}}}}
 	schema := &abs.Schema{Files: []*abs.File{f}}
 	w, err := work.New()
 	if err != nil {
@@ -224,6 +230,23 @@ func clientSideCheck(c *chk.Ctx, enforce string, realResponses []*ceResp) {
 			resps = append(resps, &cp)
 		}
 	}
+	// every failure also reaches the RPCs of the other shapes
+	for _, r := range resps {
+		if r.rpc == "" {
+			r.rpc = "Do"
+		}
+	}
+	for _, r := range append([]*ceResp{}, resps...) {
+		if r.status >= 200 && r.status <= 299 {
+			continue
+		}
+		for _, rpc := range []string{"Ack", "Get"} {
+			cp := *r
+			cp.rpc = rpc
+			cp.label = r.label + " [" + rpc + "]"
+			resps = append(resps, &cp)
+		}
+	}
 	// ---- run
 	in, _ := val.New(em.Built.Files, "ce.v1.In")
 	in.Set(in.Descriptor().Fields().ByName("id"), protoreflect.ValueOfString("x"))
@@ -236,10 +259,10 @@ func clientSideCheck(c *chk.Ctx, enforce string, realResponses []*ceResp) {
 			if r.class == "proto" {
 				co.ContentType = "application/x-protobuf"
 			}
-			gops = append(gops, drv.Op{Op: "call", Case: id, Call: 1, Pkg: "gen/ce", Svc: "Svc", Rpc: "Do", ReqType: "ce.v1.In", ReqB64: base64.StdEncoding.EncodeToString(val.Det(in)),
+			gops = append(gops, drv.Op{Op: "call", Case: id, Call: 1, Pkg: "gen/ce", Svc: "Svc", Rpc: r.rpc, ReqType: "ce.v1.In", ReqB64: base64.StdEncoding.EncodeToString(val.Det(in)),
 				ClientOpts: co, Canned: &drv.Canned{Status: r.status, Headers: r.headers, BodyB64: base64.StdEncoding.EncodeToString(r.body)}})
 		} else {
-			tops = append(tops, map[string]any{"op": "tscall", "case": id, "call": 1, "module": tsCli, "service": "Svc", "rpc": "Do", "req": map[string]any{"id": "x"},
+			tops = append(tops, map[string]any{"op": "tscall", "case": id, "call": 1, "module": tsCli, "service": "Svc", "rpc": r.rpc, "req": map[string]any{"id": "x"},
 				"canned": map[string]any{"status": r.status, "headers": r.headers, "bodyB64": base64.StdEncoding.EncodeToString(r.body)}})
 		}
 	}
